@@ -11,6 +11,8 @@ Ys == <<1, -2, 3>>
 S2s(n) == { Pre(<<<<1, 4>>, <<1, 4>>, <<1, 4>>>>, n), Pre(<<<<1, 1>>, <<1, 4>>, <<1, 1>>>>, n) }
 Means(d) == { [k |-> "const", th |-> <<2>>], [k |-> "lin", th |-> Pre(<<1, 2, -1>>, 1 + d)] }
 VARIABLES pb, cx, out
+Rep == 256
+ScaleLog2 == 0 - 12
 Init == /\ \/ \E ps \in Pos2, A \in As2 : \E kn \in {Se1(Len(ps[1])), Rq1(Len(ps[1]))}, mf \in Means(Len(ps[1])), s2 \in S2s(Len(A)) :
                  pb = [pos |-> ps, A |-> A, y |-> Pre(Ys, Len(A)), s2 |-> s2, kern |-> kn, mean |-> mf]
            \/ \E ps \in Pos3, A \in As3 : \E kn \in {Se1(1), Rq1(1)}, mf \in Means(1), s2 \in S2s(Len(A)) :
@@ -18,6 +20,13 @@ Init == /\ \/ \E ps \in Pos2, A \in As2 : \E kn \in {Se1(Len(ps[1])), Rq1(Len(ps
         /\ cx = InvContext(pb) /\ out = 0
 Next == /\ out = 0 /\ out' = 1 /\ UNCHANGED <<pb, cx>>
         /\ PrintT(ToJson([pb |-> pb, mean |-> PostMean(cx), cov |-> PostCov(cx), prior |-> cx.K, evidence |-> Evidence(cx),
+                          \* Rep copies of the problem placed so far apart that the prior covariance between copies is zero: the joint
+                          \* problem is block diagonal, its evidence is Rep times the evidence of one copy (hundreds of data points)
+                          rep |-> Rep, evidence_rep |-> SScale(RInt(Rep), Evidence(cx)),
+                          \* the same in other units: data, errors, prior mean and prior amplitude all multiplied by 2^ScaleLog2 multiply
+                          \* A K A' + S by 4^ScaleLog2, so each of the Rep * n data points adds -ScaleLog2 ln2 to the evidence
+                          scale_log2 |-> ScaleLog2,
+                          evidence_rep_scaled |-> SAdd(SScale(RInt(Rep), Evidence(cx)), SAtom(RInt((0 - ScaleLog2) * Rep * Len(pb.A)), <<"ln2">>)),
                           gmean |-> EvidenceGradMean(cx, pb), gcov |-> EvidenceGradCov(cx, pb)]))
 Symmetric == CovOK(cx)
 PsdSmall == Len(pb.pos) = 2 => (PSD2(PostCov(cx)) /\ PSD2(RMatSub(cx.K, PostCov(cx))))
